@@ -193,8 +193,13 @@ def check_program_end(ctx, rep, rule):
         idx = cand[0]
     suffix = '.f%d' % idx
 
+    cur_name = F.adt('parser::Parser')['variants'][0]['fields'][idx]['name']
+
     def is_cur(v):
-        return isinstance(v, tuple) and len(v) == 2 and v[0] in ('mem', 'ref') and isinstance(v[1], str) and v[1].endswith(suffix)
+        if isinstance(v, tuple) and len(v) == 2 and v[0] in ('mem', 'ref') and isinstance(v[1], str) and v[1].endswith(suffix):
+            return True
+        # a copy of the field taken just before the test (`let next = self.current_token; if next == ..`)
+        return isinstance(v, tuple) and len(v) == 3 and v[0] == 'field' and v[2] == cur_name
     n = 0
     for p in AbsInt(F, fn, max_paths=20000).run():
         r = simp(p.env.get('_0'))
@@ -211,8 +216,9 @@ def check_program_end(ctx, rep, rule):
                     t = truth(c)
                     equal = (t and not is_ne) or ((not t) and is_ne)
                     last = (other[0] if other else None, equal)
-            elif c[0][0] == 'variant' and c[0][2] == tables.TOKEN and len(c[0]) > 3 and is_cur(c[0][3]) if len(c[0]) > 3 else False:
-                last = (('enum', tables.TOKEN, c[1]), True)
+            elif c[0][0] == 'variant' and c[0][2] == tables.TOKEN and isinstance(c[0][1], str) and c[0][1].endswith(suffix):
+                # a `match` on the current token: the arm taken names the token (an `otherwise` arm names none)
+                last = (('enum', tables.TOKEN, c[1]), True) if not str(c[1]).startswith('otherwise') else (None, False)
         ok = last is not None and last[1] and last[0] == ('enum', tables.TOKEN, eof)
         rep.ob(ok, rule, fn.path, 'Ok return #%d' % n, 'the last test of the current token before the successful return found %s (%s)' % (
             'Token::' + eof if ok else 'something else', 'no test' if last is None else '%s %s' % ('==' if last[1] else '!=', show(last[0]) if last[0] else '?')), fn.loc())
